@@ -31,11 +31,12 @@ def _resource_dir():
 
 
 EXTRA_DEFINES = []  # additional -D switches of the configuration being analysed (set by load_program)
+STD_OVERRIDE = []  # [-std=...] replacing the build's language standard (thorough tier: the standards the library supports)
 
 
 def _hash_tree():
     h = hashlib.sha256()
-    h.update(("defines:" + " ".join(EXTRA_DEFINES)).encode())
+    h.update(("defines:" + " ".join(EXTRA_DEFINES) + " std:" + " ".join(STD_OVERRIDE)).encode())
     paths = []
     for top in ("include", "src", "cmake"):
         for root, dirs, files in os.walk(os.path.join(REPO, top)):
@@ -127,6 +128,8 @@ def extra_units():
 
 def _extract_one(job):
     src, flags, out, rdir = job
+    if STD_OVERRIDE:
+        flags = [a for a in flags if not a.startswith("-std=")] + ["-std=" + STD_OVERRIDE[0]]
     cmd = [FACTS_BIN, "--root", REPO + "/include", "--root", REPO + "/src", "--root", VERIF + "/witness",
            "--root", VERIF + "/fixtures", "-o", out, src, "--"] + flags + ["-D" + m for m in EXTRA_DEFINES] + ["-resource-dir", rdir, "-UNDEBUG",
                                                                                                                   "-Wno-everything"]
@@ -236,12 +239,14 @@ def unknown_switches():
     return out
 
 
-def load_program(verbose=False, defines=()):
+def load_program(verbose=False, defines=(), std=None):
     EXTRA_DEFINES[:] = list(defines)
+    STD_OVERRIDE[:] = [std] if std else []
     try:
         return _load_program(verbose)
     finally:
         EXTRA_DEFINES[:] = []
+        STD_OVERRIDE[:] = []
 
 
 def _load_program(verbose=False):
